@@ -411,7 +411,7 @@ func SubFor(sub []int, idx int, dims []int) []int {
 		idx -= v * stride
 		stride /= dims[i+1]
 	}
-	if idx > dims[len(sub)-1] {
+	if idx >= dims[len(sub)-1] {
 		panic("combin: index too large")
 	}
 	sub[len(sub)-1] = idx
